@@ -225,6 +225,8 @@ struct Thread {
   int64_t op_parked_ns = 0;
   int next_spec = -1;     // child spec to attach at exec / fork-child end
   int fork_ret = 0;
+  void *tsan_prev_fiber = nullptr;
+  bool tsan_sync_resume = false;
   CoroSnapshot snap;
   void *user = nullptr;
 };
